@@ -217,6 +217,21 @@ Definition class_of (w : wop) : opclass :=
       else COther
   end.
 
+(* the keys a block OWNS in the unversioned part of the database: flat 'ut'/'cl' entries and its
+   per-block records (undo records, multiset, set size, ProcessedState marker). The harness'
+   structural write-log monitor (scenario.go:checkLog) evaluates on every logged append / reorg that
+   they are only touched by block batches and rollback batches, one per block. *)
+Definition is_flat (k : key) := match k with KFlat _ => true | _ => false end.
+Definition is_owned (k : key) := is_flat k || is_meta k.
+Definition touches_owned (w : wop) : bool :=
+  match w with W1 o => is_owned (sop_key o) | WBatch l => has_key is_owned l end.
+Definition is_block_batch (w : wop) : bool :=
+  match w with WBatch l => has_key is_meta l | _ => false end.
+Definition is_rollback_batch (w : wop) : bool :=
+  match w with WBatch l => negb (has_key is_meta l) && has_key is_head l && has_key is_canon l | _ => false end.
+Definition is_fwd_step (s : step) := match s with SFwd _ => true | _ => false end.
+Definition is_back_step (s : step) := match s with SBack _ _ _ => true | _ => false end.
+
 Definition opclass_eqb (a b : opclass) : bool :=
   match a, b with
   | CPutBlock, CPutBlock | CPutCanon, CPutCanon | CDelCanon, CDelCanon | CPutHead, CPutHead
